@@ -21,6 +21,14 @@ def least_pow2(i):
     return r
 
 
+# (layout, coordinate type, extents) with prod(extents) <= 2^bits(coordinate type)
+NARROW = [("hilbert", "u8", (9, 3)), ("hilbert", "u8", (17, 2)), ("hilbert", "u8", (65, 2)), ("hilbert", "u8", (128, 2)), ("hilbert", "u8", (16, 16)),
+          ("hilbert", "u16", (129, 3)), ("hilbert", "u16", (200, 200)), ("hilbert", "u16", (256, 256)), ("hilbert", "u16", (300, 2)), ("hilbert", "u16", (2, 300)),
+          ("mortonF", "u8", (9, 3)), ("mortonF", "u8", (5, 6, 2)), ("mortonT", "u8", (16, 16)), ("mortonF", "u8", (17, 3)), ("mortonT", "u8", (100, 2)),
+          ("mortonF", "u16", (300, 2)), ("mortonT", "u16", (129, 129)), ("mortonF", "u16", (40, 40, 40)), ("mortonT", "u16", (3, 300, 5)),
+          ("hilbert", "u32", (300, 300)), ("mortonT", "u32", (70, 3, 70))]
+
+
 def evaluate(ctx, lines, rle, all8, allocs, cfgs):
     corr = Corr()
     for o in ("round_pow2", "ipow", "curve_len"):
@@ -140,6 +148,27 @@ def evaluate(ctx, lines, rle, all8, allocs, cfgs):
                     corr.violation("curve_len", f"{lay} {sz}: {a} cells allocated, model {mlen}", cj, impl=a, model=mlen, oracle_fails=False, key=key, cfg=cfg)
                 if len(corr.samples) < 9 and L.prod(sz) > 20:
                     corr.sample({"alloc": [lay, sz], "impl": a, "model": mlen, "last_index": i})
+            # the same consequence with narrow coordinate types (cell count within the coordinate type, as the row-major source
+            # needs): the curve storage is sized in size_t, never in the coordinate type, and every cell is found again
+            nar = [(lay, ct, list(sz)) for lay, ct, sz in NARROW if any(lay == a_[0] for a_ in allocs)]
+            if nar:
+                nm = C.run_driver("driver", [L.model_line(lay, "u64", sz, [s - 1 for s in sz]) for lay, ct, sz in nar])
+                no, _ = C.run_lines(exes[("layout", cfg)], [f"allocct {lay} {ct} {len(sz)} {' '.join(map(str, sz))}" for lay, ct, sz in nar],
+                                    timeout_per_line=2.0)
+                for (lay, ct, sz), o, m in zip(nar, no, nm):
+                    corr.configs[cfg] += 1
+                    corr.case(("allocct", lay, ct, sz, cfg), True)
+                    corr.dist[f"curve_len/{lay}/{ct}"] += 1
+                    mlen = int(m.split()[1])
+                    t = o.split()
+                    ok = len(t) == 2 and t[0].isdigit() and t[1].isdigit()
+                    dis = not ok or int(t[0]) != mlen or t[1] != "0"
+                    corr.add_obl("curve_len", 1, 1 if dis else 0)
+                    if dis:
+                        fails = (not ok) or int(t[0]) < L.curve_bound(lay, sz) or t[1] != "0"
+                        corr.violation("curve_len", f"{lay} {sz} with {ct} coordinates: answer `{o}` (cells allocated, cells lost), model {mlen} 0 "
+                                       f"(needs {L.curve_bound(lay, sz)})", {"allocct": [lay, ct, sz], "cfg": cfg}, impl=o, model=f"{mlen} 0",
+                                       oracle_fails=fails, key={"kind": "allocct", "lay": lay, "ct": ct, "sz": sz}, cfg=cfg)
     return corr
 
 
@@ -194,6 +223,8 @@ def replay(ctx):
     cfg = [c.get("cfg", "dbg")]
     if "alloc" in c:
         return evaluate(ctx, [], [], False, [tuple(c["alloc"])], cfg)
+    if "allocct" in c:        # the fixed narrow-coordinate list runs whenever an allocation of that layout is checked
+        return evaluate(ctx, [], [], False, [(c["allocct"][0], [2, 2])], cfg)
     if "line" in c and c["line"] and not c["line"].startswith("ipowall"):
         return evaluate(ctx, [c["line"]], [], False, [], cfg)
     if "rle" in c:
